@@ -197,69 +197,53 @@ theorem run_line_body : ∀ (body tail : Chars) (i st : Nat),
     congr 1
     omega
 
-theorem lookup1_slash : lookup1 47 = some "/" := by decide
-
-theorem slash_eq_op1 (d : Nat) (h1 : d ≠ 47) (h2 : d ≠ 42) :
-    stepChar .slash d = stepChar (.op1 47) d := by
-  simp only [stepChar, lookup1_slash]
-  simp [h1, h2]
-
 theorem finish_emit_fresh (k : String) (l : List Nat) (m : Mode) (f f' : Bool) (i st : Nat) :
     (finish (.emit k l m f) i st).out = (finish (.emit k l m f') 0 0).out ∧
     (finish (.emit k l m f) i st).next = i + (finish (.emit k l m f') 0 0).next := by
   cases m <;> simp [finish]
 
-/-- after a block comment the lexer behaves as at the start of a call, provided the text does
-    not go on with another comment -/
-theorem start_true_eq : ∀ (rest : Chars) (i st : Nat), commentFollows rest = false →
+/-- after block comments the lexer behaves as at the start of a call: the same token, resuming
+    at the same place (only the recorded token start differs) -/
+theorem start_true_eq : ∀ (rest : Chars) (i st : Nat),
     (run (.start true) rest i st).out = (run (.start false) rest 0 0).out ∧
     (run (.start true) rest i st).next = i + (run (.start false) rest 0 0).next
-  | [], i, st, _ => by
+  | [], i, st => by
     rw [run_nil, run_nil]
     have h1 : stepChar (.start true) 0 = .emit "EOF" [] .consume false := by decide
     have h2 : stepChar (.start false) 0 = .emit "EOF" [] .consume true := by decide
     rw [h1, h2]
     exact finish_emit_fresh _ _ _ _ _ _ _
-  | c :: cs, i, st, h => by
+  | c :: cs, i, st => by
     by_cases hb : isBlank c = true
-    · have hcf : commentFollows cs = false := by simpa [commentFollows, hb] using h
-      rw [run_cons_more _ i st (step_start_blank true c hb), run_cons_more _ 0 0 (step_start_blank false c hb)]
+    · rw [run_cons_more _ i st (step_start_blank true c hb), run_cons_more _ 0 0 (step_start_blank false c hb)]
       simp only [Bool.false_eq_true, ↓reduceIte]
-      have ih := start_true_eq cs (i + 1) st hcf
+      have ih := start_true_eq cs (i + 1) st
       have sh := run_shift cs (.start false) (0 + 1) 0
       rw [ih.1, ih.2, sh.1, sh.2]
       exact ⟨rfl, by omega⟩
     · have hb' : isBlank c = false := by simpa using hb
-      simp only [commentFollows, hb', Bool.false_eq_true, ↓reduceIte, Bool.or_eq_false_iff] at h
-      have h35 : c ≠ 35 := by simpa using h.1
+      by_cases h35 : c = 35
+      · subst h35
+        have hT : stepChar (.start true) 35 = .more .lineComment true := by decide
+        have hF : stepChar (.start false) 35 = .more .lineComment true := by decide
+        rw [run_cons_more _ i st hT, run_cons_more _ 0 0 hF]
+        have s1 := run_shift cs .lineComment (i + 1) (if true = true then i else st)
+        have s2 := run_shift cs .lineComment (0 + 1) (if true = true then 0 else 0)
+        rw [s1.1, s1.2, s2.1, s2.2]
+        exact ⟨rfl, by omega⟩
       by_cases h47 : c = 47
       · subst h47
-        have hnext : cs.head? ≠ some 47 ∧ cs.head? ≠ some 42 := by
-          have := h.2
-          simp only [beq_self_eq_true, Bool.true_and, Bool.or_eq_false_iff] at this
-          exact ⟨by simpa using this.1, by simpa using this.2⟩
-        have hT : stepChar (.start true) 47 = .more (.op1 47) false := by decide
+        have hT : stepChar (.start true) 47 = .more .slash false := by decide
         have hF : stepChar (.start false) 47 = .more .slash true := by decide
         rw [run_cons_more _ i st hT, run_cons_more _ 0 0 hF]
-        simp only [Bool.false_eq_true, ↓reduceIte]
-        have hsl : ∀ j st', run .slash cs j st' = run (.op1 47) cs j st' := by
-          intro j st'
-          cases cs with
-          | nil => rw [run_nil, run_nil, slash_eq_op1 0 (by decide) (by decide)]
-          | cons d ds =>
-            have hd : d ≠ 47 ∧ d ≠ 42 := by
-              simp only [List.head?_cons, ne_eq, Option.some.injEq] at hnext
-              exact hnext
-            simp only [run, slash_eq_op1 d hd.1 hd.2]
-        rw [hsl]
-        have s1 := run_shift cs (.op1 47) (i + 1) st
-        have s2 := run_shift cs (.op1 47) (0 + 1) 0
+        have s1 := run_shift cs .slash (i + 1) (if false = true then i else st)
+        have s2 := run_shift cs .slash (0 + 1) (if true = true then 0 else 0)
         rw [s1.1, s1.2, s2.1, s2.2]
         exact ⟨rfl, by omega⟩
       · have hF : stepChar (.start false) c = dispatch c := by
           simp [stepChar, hb', h35, h47]
         have hT : stepChar (.start true) c = stripFresh (dispatch c) := by
-          simp [stepChar, hb']
+          simp [stepChar, hb', h35, h47]
         cases hd : dispatch c with
         | more s m =>
           rw [hd] at hF hT
